@@ -15,7 +15,7 @@ from ..term import strip_ansi
 
 PROP = "C04"
 LEVEL = "fault_enumeration"
-RUNS = {"quick": 15000, "thorough": 400000}
+RUNS = {"quick": 12000, "thorough": 250000}
 OPS_KEYS = ("script",)
 INFO = {
     "rule": "seeded runs of a generated application (1-4 commands, sub-commands, typed options/arguments) on "
